@@ -31,11 +31,8 @@ func readRows(rows *sql.Rows) (t sqlTable, err error) {
 		return t, fmt.Errorf("ColumnTypes: %w", err)
 	}
 	for _, ct := range cts {
-		st := "<nil>"
-		if ct.ScanType() != nil {
-			st = ct.ScanType().String()
-		}
-		t.Types = append(t.Types, ct.DatabaseTypeName()+"/"+st)
+		// the property speaks of the database type names; the Go scan type is not compared (the scanned values are)
+		t.Types = append(t.Types, ct.DatabaseTypeName())
 	}
 	for rows.Next() {
 		vals := make([]any, len(t.Cols))
@@ -58,9 +55,9 @@ func readRows(rows *sql.Rows) (t sqlTable, err error) {
 func expectedTable(a oracle.Answer, groupBy []string) sqlTable {
 	t := sqlTable{Cols: append(append([]string{}, groupBy...), "count")}
 	for range groupBy {
-		t.Types = append(t.Types, "TEXT/string")
+		t.Types = append(t.Types, "TEXT")
 	}
-	t.Types = append(t.Types, "BIGINT/int64")
+	t.Types = append(t.Types, "BIGINT")
 	if len(groupBy) == 0 {
 		t.Rows = [][]any{{int64(a.Count)}}
 		return t
